@@ -68,4 +68,50 @@ func Run() {
 	host.Emit(0, sum)
 	host.Emit(1, cnt)
 	host.Emit(2, polled)
+	// several goroutines in the same select statement, each merging two channels
+	// of its own until both are closed; a receive from a closed channel yields the
+	// zero value, which is added BEFORE ok is looked at
+	totals := make(chan int, 3)
+	for m := 0; m < 3; m++ {
+		x, y := make(chan int), make(chan int, 1)
+		go func(k int) {
+			for i := 1; i <= n; i++ {
+				x <- k*10 + i
+			}
+			close(x)
+		}(m)
+		go func(k int) {
+			for i := 1; i <= 2; i++ {
+				y <- 1000 * (k + i)
+			}
+			close(y)
+		}(m)
+		go func() {
+			total, closes := 0, 0
+			for open := 2; open > 0; {
+				select {
+				case v, ok := <-x:
+					total += v
+					if !ok {
+						x = nil
+						open--
+						closes++
+					}
+				case v, ok := <-y:
+					total += v
+					if !ok {
+						y = nil
+						open--
+						closes += 10
+					}
+				}
+			}
+			totals <- total*100 + closes
+		}()
+	}
+	t3 := 0
+	for m := 0; m < 3; m++ {
+		t3 += <-totals
+	}
+	host.Emit(3, t3)
 }
